@@ -50,7 +50,7 @@ def cases(draw, name, tier, many=False):
         for s in case["srcs"]:
             s["fl"] = draw(st.sampled_from(["agen", "agen", "aclass", "aplain", "aclass_noclose", "agenlike",
                                              "aproxy", "areiter", "alateclose"]))
-            s["eqsrc"] = draw(st.integers(0, 3)) == 0
+            s["eqsrc"] = draw(st.sampled_from([False] * 3 + [True, "unhashable"]))
             s["falsy"] = draw(st.integers(0, 3)) == 0
             if draw(st.integers(0, 5)) == 0 and s["fl"] not in ("agen", "aclass_noclose", "areiter"):
                 # this source's own aclose() fails (after having closed it): the OTHER sources must be released anyway
